@@ -121,16 +121,16 @@ def pipePool {σ γ : Type} (s0 : σ) (inCap : Nat) (outCap : Nat → Nat) (clos
 /-- `pipe.Take`: `if n <= 0 { close(out); return out }` — no goroutine is started, `out` is closed at
 once (the deferred-close list runs with zero workers); otherwise one worker with counter `n` -/
 def takePool (n : Int) (inCap : Nat) (gated := false) : Pool Int α α :=
-  if n ≤ 0 then Pool.init 0 (fun _ => 0) n (fun _ => inCap) (fun _ => inCap) [0] gated
-  else pipePool n inCap (fun _ => inCap) [0] gated
+  if n ≤ 0 then Pool.init 0 (fun _ => 0) n (fun _ => inCap) (fun k => ([inCap] : List Nat).getD k 0) [0] gated
+  else pipePool n inCap (fun k => ([inCap] : List Nat).getD k 0) [0] gated
 
 /-- a `fork` stage: `par` goroutines sharing input 0; value/error outputs have capacity `par`
 (`done` of ForEach/Void has capacity 0), closed by the closer goroutine in source order -/
 def forkPool {σ γ : Type} (s0 : σ) (par inCap : Nat) (outCap : Nat → Nat) (closes : List Nat) (gated := false) : Pool σ α γ :=
   Pool.init par (fun _ => 0) s0 (fun _ => inCap) outCap closes gated
 
-/-- `pipe.Join(ctx, in...)`: copier `i` reads input `i`; `out` has capacity `len(in)` -/
+/-- `pipe.Join(ctx, in...)`: copier `i` reads input `i`; `out` (output 0, the only one) has capacity `len(in)` -/
 def joinPool (k : Nat) (inCap : Nat → Nat) : Pool Unit α α :=
-  Pool.init k id () inCap (fun _ => k) [0] false
+  Pool.init k id () inCap (fun j => ([k] : List Nat).getD j 0) [0] false
 
 end Golem.Model
